@@ -15,6 +15,8 @@
 mod conv;
 mod eval;
 mod pairs;
+mod protos;
+mod declforms;
 mod names;
 mod pgen;
 mod scopes;
@@ -285,7 +287,9 @@ fn run_program(src: &str, only: Option<(&str, &[Vec<V>])>, nvec: usize, rng: &mu
     let text_vk = compile_src(src, Tgt::Vk, Mode::NoPipeline);
     let reparsed = |o: &CompileOutcome| -> Result<Vec<Sx>, String> {
         match o {
-            CompileOutcome::Ok(ps) if ps.len() == 1 => parse_text(&ps[0].text()).map(|m| ast_module(&m)),
+            CompileOutcome::Ok(ps) if ps.len() == 1 => parse_text(&ps[0].text())
+                .map(|m| ast_module(&m))
+                .and_then(|items| protos::merge(items).map_err(|e| format!("declarations: {}", e))),
             CompileOutcome::Ok(_) => Err("compile returned several outputs".into()),
             CompileOutcome::Err(e) => Err(format!("compile error {}", one_line(&e.chars().take(80).collect::<String>()))),
             CompileOutcome::Panic(p) => Err(format!("panic {}", p)),
@@ -339,7 +343,8 @@ fn run_program(src: &str, only: Option<(&str, &[Vec<V>])>, nvec: usize, rng: &mu
         // ---- observation: exporter tree + reference evaluation of the IR
         let find_fn = |m: &rssl_ast::Module| -> Option<Sx> {
             m.root_definitions.iter().find_map(|rd| match rd {
-                rssl_ast::RootDefinition::Function(fd) if &fd.name.node == emitted => Some(ast_func(fd)),
+                // the definition, not a prototype of the same name (prototypes are judged on the re-parsed text: protos.rs)
+                rssl_ast::RootDefinition::Function(fd) if &fd.name.node == emitted && fd.body.is_some() => Some(ast_func(fd)),
                 _ => None,
             })
         };
@@ -376,6 +381,11 @@ fn run_program(src: &str, only: Option<(&str, &[Vec<V>])>, nvec: usize, rng: &mu
                 let refused = |o: &CompileOutcome| matches!(o, CompileOutcome::Err(_));
                 if e1 == "IntLiteralOutOfRange" && e2 == e1 && p.prog.iter().any(has_unprintable_intlit) && refused(&text_dx) && refused(&text_vk) {
                     hist.add("export-refused:IntLiteralOutOfRange");
+                    refused_ok = true;
+                } else if e1 == "FunctionNotDefined" && e2 == e1 && protos::has_undefined_declaration(&p.ir) && refused(&text_dx) && refused(&text_vk) {
+                    // a declared function (or an instantiation of a declared function template) has no implementation in
+                    // the typed module: both flavours refuse, compile() reports an error, nothing is emitted
+                    hist.add("export-refused:FunctionNotDefined");
                     refused_ok = true;
                 } else {
                     fails.push(format!("generate error dx={} vk={}", e1, e2));
@@ -481,7 +491,7 @@ fn run_program(src: &str, only: Option<(&str, &[Vec<V>])>, nvec: usize, rng: &mu
         let oracle = if !fails.is_empty() {
             format!("FAIL:{}", fails[0])
         } else if refused_ok {
-            "ok(export refused with IntLiteralOutOfRange: the module has an integer constant no literal can spell; nothing is emitted)".to_string()
+            "ok(export refused — IntLiteralOutOfRange: the module has an integer constant no literal can spell, or FunctionNotDefined: a declared function has no definition; nothing is emitted)".to_string()
         } else if skip_text {
             "ok(text oracle not available: rssl cannot re-parse its own output here, see notes)".to_string()
         } else {
@@ -660,7 +670,15 @@ pub fn run(args: &Args, out: &mut Out) {
     for k in 0..n {
         let mut prng = rng.fork();
         let opts = pgen::GenOpts { floats: k % 3 != 0, calls: true, max_depth: 1 + (k % 3) as u32 };
-        let src = pgen::Gen::new(&mut prng, opts).program();
+        let mut src = pgen::Gen::new(&mut prng, opts).program();
+        // declaration forms: every third program gets prototypes / definitions moved behind their uses (declforms.rs)
+        if k % 3 == 1 {
+            let (s2, np) = declforms::protoize(&src, &mut Rng::new(args.seed ^ k.wrapping_mul(0x9E37_79B9_7F4A_7C15) ^ 0x70726f74));
+            if np > 0 {
+                hist.add("programs-with-prototypes");
+                src = s2;
+            }
+        }
         let mut arng = rng.fork();
         if let Err(pn) = guard(|| run_program(&src, None, nvec, &mut arng, out, &mut hist)) {
             // a panic inside the harness itself (not under a guard of the real code): report, never hide
@@ -743,10 +761,73 @@ pub fn run(args: &Args, out: &mut Out) {
             }
         }
     }
+    // declaration forms (every tier): prototypes in every order / repeated / of the tested function / in namespaces / of
+    // overloads and templates, defaults with prototypes around, value template parameters, precise, 4-column matrices
+    {
+        let grid_text = declforms::grid_text();
+        let grid = parse_vectors(&grid_text).unwrap_or_default();
+        for (shape, src) in declforms::scalar_stream() {
+            let before = out.oracle_fail;
+            let mut arng = Rng::new(1);
+            let mut h2 = Hist::default();
+            if let Err(pn) = guard(|| run_program(&src, Some(("f1", &grid)), grid.len(), &mut arng, out, &mut h2)) {
+                hist.add("harness-panic");
+                out.case(&format!("C01.fn\t{}\tf1\t{}\t-\t-", one_line(&src), grid_text), "harness-panic", &format!("SKIP:harness panic {}", pn));
+            }
+            hist.add("declform");
+            if h2.0.contains_key("skip:front-end") {
+                hist.add(&format!("declform-rejected-by-front-end:{}", shape));
+            }
+            if h2.0.contains_key("fn:unsupported") {
+                hist.add(&format!("declform-unsupported:{}", shape));
+            }
+            if h2.0.keys().any(|k| k.starts_with("text-not-reparsable") || k.starts_with("text-unsupported")) {
+                hist.add(&format!("declform-text-not-evaluated:{}", shape));
+            }
+            if h2.0.contains_key("vector:none") {
+                hist.add(&format!("declform-some-vector-undefined:{}", shape));
+            }
+            if out.oracle_fail > before {
+                hist.add(&format!("declform-oracle-fail:{}", shape));
+            }
+        }
+        let vgrid = vrun::parse_vvectors(&grid_text).unwrap_or_default();
+        for (shape, src) in declforms::vector_stream() {
+            let before = out.oracle_fail;
+            let mut arng = Rng::new(1);
+            let mut h2 = Hist::default();
+            if let Err(pn) = guard(|| vrun::vrun_program(&src, Some(("f1", &vgrid)), vgrid.len(), &mut arng, out, &mut h2)) {
+                hist.add("harness-panic");
+                out.case(&format!("C01.vfn\t{}\tf1\t{}\t-\t-", one_line(&src), grid_text), "harness-panic", &format!("SKIP:harness panic {}", pn));
+            }
+            hist.add("vdeclform");
+            if h2.0.contains_key("v:skip:front-end") {
+                hist.add(&format!("vdeclform-rejected-by-front-end:{}", shape));
+            }
+            for k in h2.0.keys() {
+                if k.starts_with("v:text-unsupported") || k.starts_with("v:unsupported") {
+                    hist.add(&format!("vdeclform-unsupported:{}:{}", shape, k));
+                }
+            }
+            if h2.0.contains_key("v:vector:none") {
+                hist.add(&format!("vdeclform-some-vector-undefined:{}", shape));
+            }
+            if out.oracle_fail > before {
+                hist.add(&format!("vdeclform-oracle-fail:{}", shape));
+            }
+        }
+    }
     // vector / struct / array / enum stream (C01.vfn): the Lean model answers `unsupported-op`, the two Rust evaluators judge
     let nv = if args.n.is_some() { n } else if args.thorough() { 4000 } else { 250 };
     for k in 0..nv {
-        let src = vrun::vprogram(args.seed, k);
+        let mut src = vrun::vprogram(args.seed, k);
+        if k % 3 == 2 {
+            let (s2, np) = declforms::protoize(&src, &mut Rng::new(args.seed ^ k.wrapping_mul(0x9E37_79B9_7F4A_7C15) ^ 0x70726f74));
+            if np > 0 {
+                hist.add("v:programs-with-prototypes");
+                src = s2;
+            }
+        }
         let mut arng = Rng::new(args.seed ^ (k.wrapping_mul(0x9E37_79B9_7F4A_7C15)) ^ 0x5eed);
         if let Err(pn) = guard(|| vrun::vrun_program(&src, None, 6, &mut arng, out, &mut hist)) {
             hist.add("harness-panic");
